@@ -287,6 +287,24 @@ func genC12(c *Ctx) {
 	for _, f := range c12SourceChecks() {
 		c.Fail("c12.source", none, f.key, f.what)
 	}
+	// the wall-clock scenarios of the silence rule (12 s each) overlap everything else
+	alive := make([]*c12Job, 3)
+	aliveDone := make(chan int, 3)
+	for mode := range alive {
+		mode := mode
+		alive[mode] = &c12Job{kind: "c12.seq", class: []string{"seq|alive|pong-keeps-alive", "seq|alive|nonce-keeps-alive", "seq|alive|silent-reconnects"}[mode]}
+		go func() {
+			j := alive[mode]
+			acts := sx.L(sx.L(sx.A("alive"), sx.Nat(mode)))
+			events, fails, bad := runC12Alive(mode)
+			j.in = sx.L(sx.Nat(1), acts, sx.L(events...))
+			j.out, j.fails = sx.A("accept"), fails
+			if bad != "" && len(fails) == 0 {
+				j.bad = bad
+			}
+			aliveDone <- mode
+		}()
+	}
 	idle := make(chan []c12Fail, 1)
 	go func() { idle <- c12SoakIdleDrop() }()
 
@@ -375,6 +393,21 @@ func genC12(c *Ctx) {
 	for _, j := range jobs {
 		if j.bad != "" {
 			fmt.Fprintf(os.Stderr, "c12: %s: harness error: %s\n", j.kind, j.bad)
+			c.Fail(j.kind, none, "harness-error", j.bad)
+			continue
+		}
+		c12Cache.Store(j.kind+" "+j.in.String(), j.out)
+		c.Emit(j.kind, j.in, j.class)
+		for _, f := range j.fails {
+			c.Fail(j.kind, j.in, f.key, f.what)
+		}
+	}
+	for range alive {
+		<-aliveDone
+	}
+	for _, j := range alive {
+		if j.bad != "" {
+			fmt.Fprintf(os.Stderr, "c12: alive: harness error: %s\n", j.bad)
 			c.Fail(j.kind, none, "harness-error", j.bad)
 			continue
 		}
